@@ -181,12 +181,28 @@ def _run_lin(case):
     rv = ssm.prior_wiener_integrated_diffuse(mean, std).init
     f = field.jax_fn()
     lift = 0
+    # non-default linearisation point (dense model only): a recording proxy around the maximum-a-posteriori Taylor point
+    # shows which point the constraint was linearised at; the linearisation must reproduce value and Jacobian *there*, and
+    # both constructors must use it (seed C11-s4: the TS1 constructor dropped the argument)
+    use_map = fact == "dense" and ts in ("ts1", "residual")
+    points = []
+    tp_kw = {}
+    if use_map:
+        inner_tp = probdiffeq.taylor_point_maximum_a_posteriori()
+
+        class _RecPoint(type(inner_tp).__mro__[1]):
+            def __call__(self, constraint_flat, rv_, **kw):
+                xi_ = inner_tp(constraint_flat, rv_, **kw)
+                points.append(np.asarray(xi_, float))
+                return xi_
+
+        tp_kw = {"taylor_point": _RecPoint()}
     if ts == "ts0":
         cst = ssm.constraint_ode_ts0(vf)
     elif ts == "ts1":
-        cst = ssm.constraint_ode_ts1(vf)
+        cst = ssm.constraint_ode_ts1(vf, **tp_kw)
     elif ts == "residual":
-        cst = ssm.constraint_residual(probdiffeq.residual_from_ode(vf))
+        cst = ssm.constraint_residual(probdiffeq.residual_from_ode(vf), **tp_kw)
     elif ts == "user_residual":
         ctor = {1: probdiffeq.residual_velocity, 2: probdiffeq.residual_acceleration}[nb]
         user = ctor(lambda *a, t: a[-1] - f(*a[:-1], t=t), jacobian=probdiffeq.jacobian_materialize())
@@ -211,6 +227,14 @@ def _run_lin(case):
     else:
         ts_ref = "ts0" if ts == "ts0" else "ts1"
         H_ref, z_ref = lin.linearize(field, fact=fact, ts=ts_ref, m=m_dense, n=n, t=t)
+    if use_map:
+        obs["map_point_linearizations"] = 1
+        if len(points) != 1:
+            viols.append(util.viol("taylor_point_used", f"the supplied Taylor point was consulted {len(points)} times by {ts} (expected once)", tags=tags))
+            return {"violations": viols, "obs": obs, "sigs": [], "sample": None}
+        # judged at the point the library says it linearised at
+        m_dense = points[0].reshape(-1)
+        H_ref, z_ref = lin.linearize(field, fact=fact, ts="ts1", m=m_dense, n=n, t=t)
     val = G @ m_dense + xi
     scale = 1.0 + float(np.max(np.abs(z_ref)))
     ev = float(np.max(np.abs(val - z_ref))) / scale if val.shape == z_ref.shape else float("inf")
@@ -226,7 +250,10 @@ def _run_lin(case):
         viols.append(util.viol("linearization_noise", f"observation noise is not damp^2 I ({eS:.3g})", tags=tags))
     if ts in ("residual", "user_residual"):
         # must be identical to the first-order-linearised ODE constraint
-        c2, _ = ssm.constraint_ode_ts1(vf).linearize(rv, ssm.constraint_ode_ts1(vf).init_linearization(), damp=case["damp"], t=t)
+        n_before = len(points)
+        c2, _ = ssm.constraint_ode_ts1(vf, **tp_kw).linearize(rv, ssm.constraint_ode_ts1(vf, **tp_kw).init_linearization(), damp=case["damp"], t=t)
+        if use_map and len(points) != n_before + 1:
+            viols.append(util.viol("taylor_point_used", "constraint_ode_ts1 did not consult the supplied Taylor point", tags=tags))
         G2, xi2, S2 = extract.cond_dense(c2)
         dev = max(float(np.max(np.abs(G - G2))), float(np.max(np.abs(xi - xi2))), float(np.max(np.abs(Sig - S2))))
         obs["ts1_vs_residual_pairs"] = 1
